@@ -270,18 +270,24 @@ Variable c : ctx_table.
 Hypothesis F : ctx_facts c.
 
 Lemma accepted_tables : forall n, In n (accepted c) ->
-  exists a b, find_arm n (ct_get c) = Some a /\ find_arm n (ct_set c) = Some b /\
-              loc_eqb a b = true /\ loc_ok a = true /\ loc_ok b = true /\ loc_of c n = a.
+  exists a b, (exists e, find_arm n (ct_get c) = Some e /\ plain_read e = Some a) /\
+              find_arm n (ct_set c) = Some b /\
+              loc_eqb a b = true /\ loc_ok a = true /\ loc_ok b = true /\ loc_of c n = a /\
+              (exists sv, find_arm n (ct_set_val c) = Some sv /\ plain_var sv v_val = true).
 Proof.
   intros n Hn. pose proof (f_tables c F n (in_or_app _ _ _ (or_intror Hn))) as H.
-  unfold ok_tables in H. unfold loc_of.
-  destruct (find_arm n (ct_get c)) as [a|]; [|discriminate].
+  unfold ok_tables in H. unfold loc_of, acc_loc.
+  destruct (find_arm n (ct_get c)) as [e|]; [|discriminate].
   destruct (find_arm n (ct_set c)) as [b|]; [|discriminate].
+  destruct (find_arm n (ct_set_val c)) as [sv|]; [|discriminate].
+  apply andb_true_iff in H. destruct H as [H SV].
+  destruct (plain_read e) as [a|] eqn:P; [|discriminate].
   apply andb_true_iff in H. destruct H as [H W2].
   apply andb_true_iff in H. destruct H as [H W1].
   apply andb_true_iff in H. destruct H as [H O2].
   apply andb_true_iff in H. destruct H as [H O1].
-  exists a, b. repeat split; try assumption; reflexivity.
+  exists a, b. split; [exists e; split; [reflexivity | exact P]|].
+  repeat split; try assumption. exists sv. split; [reflexivity | exact SV].
 Qed.
 
 Lemma memoizable_accepted : forall n m, memoize c n = Some m -> In n (accepted c).
@@ -293,8 +299,8 @@ Qed.
 Lemma get_always_accepted : forall rf n, In n (accepted c) ->
   get_always c rf n = Ret (rf_get rf (loc_of c n)).
 Proof.
-  intros rf n Hn. destruct (accepted_tables n Hn) as [a [b [Hg [Hs [Hab [Hoa [Hob Hl]]]]]]].
-  unfold get_always. rewrite Hg, Hoa, Hl. reflexivity.
+  intros rf n Hn. destruct (accepted_tables n Hn) as [a [b [[e [Hg Hp]] [Hs [Hab [Hoa [Hob [Hl _]]]]]]]].
+  unfold get_always. rewrite Hg, Hl. exact (plain_read_eval e a Hp Hoa rf []).
 Qed.
 
 Lemma alias_loc : forall n m, In n (accepted c) -> In m (accepted c) ->
@@ -315,11 +321,14 @@ Lemma set_get : forall n, In n (accepted c) -> forall rf v,
     (forall m, In m (accepted c) -> memoize c m <> memoize c n ->
                get_always c (upd rf l v) m = get_always c rf m).
 Proof.
-  intros n Hn rf v. destruct (accepted_tables n Hn) as [a [b [Hg [Hs [Hab [Hoa [Hob Hl]]]]]]].
+  intros n Hn rf v. destruct (accepted_tables n Hn) as [a [b [_ [Hs [Hab [Hoa [Hob [Hl [sv [Hsv Psv]]]]]]]]]].
   exists b. split; [exact Hs|]. split; [exact Hob|].
   assert (Hga : get_always c (upd rf b v) n = Ret v).
   { rewrite (get_always_accepted _ n Hn), Hl, rf_get_upd, Hab. reflexivity. }
-  split; [unfold set_reg; rewrite Hs, Hob; reflexivity|].
+  split.
+  { unfold set_reg. rewrite Hs, Hsv.
+    rewrite (plain_var_eval sv v_val Psv rf [(v_val, v)] v) by (cbn [lookup_var]; rewrite name_eqb_refl; reflexivity).
+    cbn [obind]. rewrite Hob. reflexivity. }
   split; [exact Hga|].
   split.
   { unfold get_register. cbn [is_valid]. rewrite (f_acc_memo c F n Hn), Hga. reflexivity. }
@@ -351,15 +360,16 @@ Proof.
 Qed.
 
 Lemma aliases_same_location : forall n m, memoize c n = Some m ->
-  exists l l', find_arm n (ct_get c) = Some l /\ find_arm m (ct_get c) = Some l' /\
-               loc_eqb l l' = true /\ memoize c m = Some m /\ In m (ct_registers c).
+  In n (accepted c) /\ In m (accepted c) /\
+  loc_eqb (loc_of c n) (loc_of c m) = true /\
+  (forall rf, get_always c rf n = Ret (rf_get rf (loc_of c n)) /\ get_always c rf m = Ret (rf_get rf (loc_of c n))) /\
+  memoize c m = Some m /\ In m (ct_registers c).
 Proof.
   intros n m H. destruct (canonical_fixpoint n m H) as [Hm Hr].
   pose proof (memoizable_accepted n m H) as An. pose proof (memoizable_accepted m m Hm) as Am.
-  destruct (accepted_tables n An) as [a [b [Hg [_ [_ [_ [_ Hl]]]]]]].
-  destruct (accepted_tables m Am) as [a' [b' [Hg' [_ [_ [_ [_ Hl']]]]]]].
-  exists a, a'. split; [exact Hg|]. split; [exact Hg'|]. split; [|split; assumption].
-  rewrite <- Hl, <- Hl'. apply (alias_loc n m An Am). rewrite H, Hm. reflexivity.
+  assert (E : loc_eqb (loc_of c n) (loc_of c m) = true) by (apply (alias_loc n m An Am); rewrite H, Hm; reflexivity).
+  split; [exact An|]. split; [exact Am|]. split; [exact E|]. split; [|split; assumption].
+  intro rf. rewrite (get_always_accepted rf n An), (get_always_accepted rf m Am), (rf_get_eq rf _ _ E). split; reflexivity.
 Qed.
 
 Lemma unknown_absent : forall n, memoize c n = None ->
@@ -398,7 +408,7 @@ Proof.
   apply is_some_true in Hm. destruct Hm as [k Hk].
   pose proof (memoizable_accepted n k Hk) as An.
   pose proof (get_always_accepted rf n An) as G. unfold loc_of in G. rewrite E in G.
-  split; [rewrite G, (rf_get_eq rf g l Hgl); reflexivity|].
+  split; [rewrite G, (rf_get_eq rf (acc_loc g) l Hgl); reflexivity|].
   split; [exact (plain_read_eval acc l P Hok rf [])|].
   split; [rewrite Hk; discriminate|].
   unfold loc_of. rewrite E. exact Hgl.
@@ -416,7 +426,7 @@ Proof.
   rewrite E1, E0, rf_get_upd.
   destruct (memoize c s) as [k|] eqn:Hk; [|contradiction].
   pose proof (memoizable_accepted s k Hk) as As.
-  destruct (accepted_tables n Hn) as [a [b [Hg [Hs [Hab [Hoa [Hob Hln]]]]]]].
+  destruct (accepted_tables n Hn) as [a [b [_ [Hs [Hab [Hoa [Hob [Hln _]]]]]]]].
   rewrite Hl in Hs. inversion Hs; subst b.
   assert (X : loc_eqb (acc_loc acc) l = loc_eqb (loc_of c n) (loc_of c s)).
   { rewrite Hln. apply loc_eqb_iff in Hloc. apply loc_eqb_iff in Hab. destruct Hloc as [L1 L2]. destruct Hab as [A1 A2].
